@@ -37,7 +37,9 @@ def analysis(params, workdir: Path, models_in=None, model_order=None, proteins_i
     cols = [c for c in df.columns if c not in ("Peptide", "Proteins")] + ["Peptide", "Proteins"]
     df = df[cols]
     p = mkdata.write_table(df, workdir / f"in.{params['fmt']}")
-    fasta = mkdata.make_fasta(params["n_pep"], max(3, params["n_pep"] // 4), workdir / "db.fasta")
+    # 1-2 unique peptides per protein, so that decoy proteins do win some pairs (the decoy side of the picked-protein
+    # step, which pairs decoy peptides with target peptides of equal composition, must show in the result files)
+    fasta = mkdata.make_fasta(params["n_pep"], max(3, (3 * params["n_pep"]) // 4), workdir / "db.fasta", shared_every=7)
     digest = {}
     # deliberately perturb the global numpy state: a seeded analysis must not depend on it
     np.random.seed(params.get("global_noise", 0))
